@@ -276,6 +276,10 @@ class World:
         # accuracy).  For staggered / incremental scenarios only: the size of exact rationals otherwise squares at every
         # step.  The statements decided with it are inequalities with a margin far above 10^-n.
         self.round_digits = round_digits
+        if round_digits is not None:
+            from . import xeval as _xe
+
+            _xe.APPROX_SQRT_DIGITS = 2 * round_digits  # (scenarios run in forked workers: the switch stays in this process)
         self.ET = repo.cls(ELEMTYPE)
         _WORLDS.append(self)
 
@@ -453,7 +457,13 @@ _SCEN = []
 def _run_one(k):
     """worker (forked): returns (status, message, functions interpreted) with status in ok / fail / undecided"""
     del _WORLDS[:]
-    st, msg = _run_one_inner(k)
+    from . import xeval as _xe
+
+    _xe.APPROX_SQRT_DIGITS = None
+    try:
+        st, msg = _run_one_inner(k)
+    finally:
+        _xe.APPROX_SQRT_DIGITS = None  # (a scenario with a rounding backend switches approximate roots on for itself only)
     funcs = set()
     for w in _WORLDS:
         funcs |= set(w.I.trace_funcs)
